@@ -21,7 +21,7 @@ func init() {
 			ruleB5echo(c)
 			ruleS2S3(c)
 		},
-		explanation: "Decides the structure of split synchronization: every slice expression of the sender's chunk walk is proved in bounds by an inductive argument over the retry/advance loop (n <= len(list) holds on every edge into the loop head, including the edge that carries the recalculated chunk sizes); each list's chunk upper bound and advance lower bound are the same value and the 'more' flag is exactly 'something is left of either list' for those bounds; a non-final chunk whose reply carries updates or a different 'more' fails the sync before the lists are advanced; a plugin whose synchronization fails is never activated (both activation sites); the receiver appends both lists to the stored ones in order under the stub lock, takes-and-clears the stored request, calls the handler exactly once with the concatenation and wires its results to the response. The chunk walk ends on the sender's own More flag, never on the reply's. A per-message count that the retry scales down to zero is raised to one while its list is non-empty, so every accepted non-final chunk advances every non-empty list.",
+		explanation: "Decides the structure of split synchronization: every slice expression of the sender's chunk walk is proved in bounds by an inductive argument over the retry/advance loop (n <= len(list) holds on every edge into the loop head, including the edge that carries the recalculated chunk sizes); each list's chunk upper bound and advance lower bound are the same value and the 'more' flag is exactly 'something is left of either list' for those bounds; a non-final chunk whose reply carries updates or a different 'more' fails the sync before the lists are advanced; a plugin whose synchronization fails is never activated (both activation sites); the receiver appends both lists to the stored ones in order under the stub lock, takes-and-clears the stored request, calls the handler exactly once with the concatenation and wires its results to the response. The chunk walk ends on the sender's own More flag, never on the reply's. A per-message count that the retry scales down to zero is raised to one while its list is non-empty, so every accepted non-final chunk advances every non-empty list. Every response the stub builds for a chunk echoes the request's More flag; a failing synchronization closes the plugin.",
 		notDecided: []string{
 			"the arithmetic of the shrink factor and hence termination of the retry loop (numeric)",
 			"transport limits and the sizes of real objects",
